@@ -93,7 +93,7 @@ def names_lists_and_penalty_types(ctx):
               "condition(x) = eval(line); named after its kind", 'condition template changed', f, f.node)
     _namespace_rule(ctx, f, 'generate_conditions')
     g = ctx.func(SY + ':generate_penalty')
-    sel = [n for n in walk_no_nested(g.node) if isinstance(n, ast.If) and 'inequality' in unparse(n.test) and '__name__' in unparse(n.test)]
+    sel = [n for n in walk_no_nested(g.node) if isinstance(n, ast.If) and '__name__' in unparse(n.test) and 'condition' in unparse(n.test)]
     ctx.need(sel, 'generate_penalty: default type selection not found')
     s0 = sel[0]
     a = ''.join(unparse(s0.body[0]).split())
